@@ -305,6 +305,9 @@ func parseEntryDirective(e *HarnessEntry, s string) error {
 			e.Native = true
 		case "float":
 			e.Float = v
+		case "preempt":
+			n, _ := strconv.Atoi(v)
+			e.Preempt = n
 		case "recycle":
 			n, _ := strconv.Atoi(v)
 			e.Recycle = n
